@@ -2,15 +2,16 @@
 # run_seeds.sh: run every independently seeded property-breaking change (seeded/<id>/) through its check, one after
 # the other, and write seeded/RESULTS.md (what the check printed, what broke, which failing input it found).
 cd /verif
-OUT=seeded/RESULTS.md
-echo "# Seeded changes against their checks ($(date -u +%F))" > $OUT
+ROOT=${1:-seeded}            # seeded (round 1) or seeded/r2 (round 2)
+OUT=$ROOT/RESULTS.md
+echo "# Seeded changes ($ROOT) against their checks ($(date -u +%F))" > $OUT
 echo >> $OUT
 echo "| property | check result | what no longer checked | failing input found (key) | wall s |" >> $OUT
 echo "|---|---|---|---|---|" >> $OUT
-for d in seeded/C*/; do
+for d in $ROOT/C*/; do
   p=$(basename $d)
   s=$(date +%s)
-  log=$(tools/selftest/try_seed.sh $p /verif/seeded/$p 2>&1)
+  log=$(tools/selftest/try_seed.sh $p /verif/$ROOT/$p 2>&1)
   e=$(( $(date +%s) - s ))
   line=$(echo "$log" | grep -m1 "^VIOLATION" || echo "$log" | tail -2 | head -1)
   rp=$(echo "$line" | sed -n 's/.*replay=\([^ ]*\).*/\1/p')
